@@ -72,7 +72,15 @@ def perturbed(ctx, t, bi, n):
     for lines in (['zv1 := 0', 'zv2 := if false do', '    1', 'else do', '    zv1 = 2', 'end', 'print(zv2 + 1)'],
                   ['zv3 := case ZEV do', '    P x -> zq :: x end', '    Q -> 1 end', 'end', 'print(zv3 + 1)'],
                   ['zvf :: fn c: bool -> int do', '    if c do', '        1', '    else do', '        zq :: 2', '    end', 'end',
-                   'print(zvf(false) + 1)']):
+                   'print(zvf(false) + 1)'],
+                  # the branch ends in a nested `do ... end` block (whatever that block ends in, the branch has no value)
+                  ['zv1 := 0', 'zv2 := if false do', '    1', 'else do', '    do', '        2', '    end', 'end', 'print(zv2 + 1)'],
+                  ['zv1 := 0', 'zv2 := if false do', '    1', 'else do', '    do', '        do', '            zv1 + 2', '        end', '    end', 'end',
+                   'print(zv2 + 1)'],
+                  ['zvf :: fn c: bool -> int do', '    if c do', '        1', '    else do', '        do', '            2', '        end', '    end', 'end',
+                   'print(zvf(false) + 1)'],
+                  ['zv3 := case ZEV do', '    P x ->', '        do', '            x', '        end', '    end', '    Q -> 1 end', 'end',
+                   'print(zv3 + 1)']):
         if ss:
             i, info = r.choice(ss)
             out.append(("valueless branch used: " + lines[1], tg.render(t, plant_s=(i, lines))))
